@@ -85,3 +85,17 @@ CLAIMS.update({
              "write_all through any short-writing writer delivers exactly the bytes, a writer failing before the last byte makes the operation fail. Explored: the genotype reader (noodles VCF/BCF/BGZF) over enumerated first-chunk lengths, 1-byte schedules and injected failures, compared with the create model.",
         note=NOTE_COMMON + " std::io's default read_exact / read_line / read_to_string / write_all are re-stated in Lean (IoModel) and validated by running the real code over scheduled readers/writers; noodles' readers are not modelled."),
 })
+
+CLAIMS.update({
+    "C06": dict(
+        text="Unbounded Lean theorems over any field of characteristic zero: create_is_spectrum + linear_stat (every statistic that is a weighted sum over the cells of the created spectrum is the sum of the weight over the complete sites of the call set), "
+             "and from it sum / S / pi (pairs of differing chromosomes, diffPairs_eq) / pi_xy / f2 / f3 / f4 / Hudson's Fst / KING / R0 / R1 equal their genotype-level definitions for every call set, any number of populations of any sizes; "
+             "for every count spectrum of n chromosomes Watterson's theta, pi, Tajima's D and Fu and Li's D (as numerator / variance pairs) equal the published formulas (ordered field for a_n > 0). "
+             "The transcription (14 statistics incl. take/skip windows, frequencies i/(len-1), normalisation in the CLI dispatch) is compared with the real code on spectra with n up to 500-900, and the genotype-level definitions are evaluated independently on generated call sets.",
+        note=NOTE_COMMON + " Partial clause: binary64 evaluation (sums, harmonic numbers, exp/ln binomial, sqrt) is compared within 2^-30 relative to the scale of the sums, not proved. The theorems use field semantics (x/0 = 0); degenerate shapes where the code returns NaN/inf are C17's subject."),
+    "C14": dict(
+        text="Unbounded Lean theorems over any field of characteristic zero, for every shape with axes >= 2: f3 and f4 equal the documented combinations of f2 of the normalised two-population marginals (via marginalize_eq_spec); pi, theta, S, Tajima's D, pi_xy, f2, f3, f4, Fst, KING, R0, R1 "
+             "are unchanged by folding with fill zero (one lemma: a mirror-symmetric weighted sum is fold-invariant); all statistics but sum/f2/f3/f4 ignore the two monomorphic entries; f2, Fst, pi_xy, KING, R0, R1 are symmetric in the populations; scaling by c != 0 leaves f2, f3, f4, Fst, KING, R0, R1 unchanged "
+             "and scales sum, S, pi, pi_xy, theta. Each relation is also executed on the implementation (incl. `sfs fold --fill zero | sfs stat`) and compared with the model.",
+        note=NOTE_COMMON + " In binary64 the relations hold up to rounding; the correspondence compares each side with the exact model value within 2^-30 relative."),
+})
